@@ -198,3 +198,45 @@ Definition rcase_ok (x : rcase) : bool :=
 
 Definition response_mismatches (cs : list (N * rcase)) : list N :=
   flat_map (fun c => if rcase_ok (snd c) then [] else [fst c]) cs.
+
+(* ------------------------------------------------ content types: http/encoding.go probed
+   directly (ResponseEncoder, ResponseDecoder, RequestEncoder, RequestDecoder,
+   SetContentType through ResponseEncoder, mime.ParseMediaType's media type, the text
+   codec): inputs and what the real functions answered *)
+Inductive ccase :=
+| CRespEnc (ct : bstr) (ctp : parse_verdict) (accept : bstr) (aok : bool) (h : bstr) (oc : option codec) (oh : bstr)
+| CRespDec (h : bstr) (hok : bool) (oc : codec)
+| CReqEnc (h : bstr) (oc : codec) (oh : bstr)
+| CReqDec (h : bstr) (hok : bool) (o : req_dec)
+| CParse (s : bstr) (omt : bstr)
+| CTextEnc (v : tval) (o : option bstr)
+| CTextDec (t : ttarget) (body : bstr) (o : option tval).
+
+Definition ocodec_eqb (x y : option codec) : bool :=
+  match x, y with Some a, Some c => codec_eqb a c | None, None => true | _, _ => false end.
+Definition tval_eqb (x y : tval) : bool :=
+  match x, y with
+  | TvStr a, TvStr c | TvBytes a, TvBytes c => beq a c
+  | TvOther, TvOther => true
+  | _, _ => false
+  end.
+Definition ccase_ok (c : ccase) : bool :=
+  match c with
+  | CRespEnc ct ctp accept aok h oc oh =>
+    let (mc, mh) := resp_encoder ct ctp accept aok h in ocodec_eqb mc oc && beq mh oh
+  | CRespDec h hok oc => codec_eqb (resp_decoder h hok) oc
+  | CReqEnc h oc oh => let (mc, mh) := req_encoder h in codec_eqb mc oc && beq mh oh
+  | CReqDec h hok o =>
+    match req_decoder h hok, o with
+    | RDec a, RDec c => codec_eqb a c
+    | RUnsupported a, RUnsupported c => beq a c
+    | _, _ => false
+    end
+  | CParse s omt => beq (media_type_part s) omt
+  | CTextEnc v o =>
+    match text_encode v, o with Some a, Some c => beq a c | None, None => true | _, _ => false end
+  | CTextDec t body o =>
+    match text_decode t body, o with Some a, Some c => tval_eqb a c | None, None => true | _, _ => false end
+  end.
+Definition codec_mismatches (cs : list (N * ccase)) : list N :=
+  flat_map (fun c => if ccase_ok (snd c) then [] else [fst c]) cs.
